@@ -16,8 +16,7 @@ use zbus::proxy::CacheProperties;
 
 use crate::{
     fakebus::{FakeBus, DRIVER, DRIVER_PATH, ME},
-    probe::connect,
-    sched::{quiesce, Slot},
+    sched::{connect, quiesce, Slot},
 };
 
 pub const NAME: &str = "com.example.Svc";
@@ -31,7 +30,7 @@ pub fn uniq(sym: &str) -> &'static str {
         "B" => ":1.6",
         "S" => ":1.66",
         "none" => "",
-        _ => panic!("unknown peer symbol {sym}"),
+        _ => panic!("HARNESS: unknown peer symbol {sym}"),
     }
 }
 
@@ -50,7 +49,7 @@ pub fn run_case(case: &J) -> J {
                 .build(),
         );
         quiesce(&mut bus, Some(&conn), &mut [&mut s], true);
-        s.out.take().expect("proxy build pending").expect("proxy build failed")
+        s.out.take().expect("HARNESS: proxy build pending").expect("HARNESS: proxy build failed")
     };
     let all = case["mode"] == "all";
     let mut st: Slot<zbus::Result<zbus::proxy::SignalStream>> = if all {
@@ -143,7 +142,7 @@ pub fn run_case(case: &J) -> J {
                 }
                 log.push(json!({"k":"q"}));
             }
-            k => panic!("unknown event kind {k}"),
+            k => panic!("HARNESS: unknown event kind {k}"),
         }
     }
     json!({
